@@ -41,7 +41,12 @@ void c19_R_copy(void* dst, const void* src)
     *(c19_T*)dst = *(const c19_T*)src;
 }
 
-static MockSupport_c* support(const c19_op* op) { return op->scope ? mock_scope_c(op->scope) : mock_c(); }
+static MockSupport_c* kept_handle;
+static MockSupport_c* support(const c19_op* op)
+{
+    if (op->scope == C19_KEPT) return kept_handle;
+    return op->scope ? mock_scope_c(op->scope) : mock_c();
+}
 
 static void obs_double(c19_obs* o, double d) { memcpy(&o->dbits, &d, sizeof d); }
 static void obs_string(c19_obs* o, const char* s)
@@ -151,6 +156,7 @@ void c19_run_c(const c19_op* ops, int from, int to, c19_obs* obs, unsigned char 
             break;
         case C19_INSTALL_CPY: support(op)->installCopier(op->type, op->n == 0 ? c19_T_copy : op->n == 1 ? c19_U_copy : c19_R_copy); break;
         case C19_REMOVE_ALL: support(op)->removeAllComparatorsAndCopiers(); break;
+        case C19_SELECT: kept_handle = op->scope ? mock_scope_c(op->scope) : mock_c(); break;
 
         case C19_E_PARAM:
             switch (v->kind) {
